@@ -344,6 +344,32 @@ def eval_section(case):
     gotr = {k: tuple(v) for k, v in tr.checksums.checksums.items()}
     if gotr:
         return ["%s: the object then read a treeinfo without a [checksums] section and still carries %s" % (what, gotr)]
+    # entries recorded by add() in an order that is not the alphabetical one (what a directory walk gives), then written: every
+    # path keeps ITS digest and algorithm in the file
+    tw = samples.treeinfo(0)
+    expw = {}
+    for j, (pth, alg, n) in enumerate((("z/last.img", "sha256", 64), ("a/first.img", "md5", 32), ("m/mid.img", "sha1", 40), ("b/second.img", "sha256", 64))):
+        tw.checksums.add(pth, alg, "%x" % (j + 1) * n)
+        expw[pth] = (alg, "%x" % (j + 1) * n)
+    try:
+        tw2 = TreeInfo()
+        tw2.loads(tw.dumps())
+    except Exception as exc:
+        return ["%s: tree with four added checksums: write/read cycle raised %s: %s" % (what, type(exc).__name__, exc)]
+    gotw = {k: tuple(v) for k, v in tw2.checksums.checksums.items() if k in expw}
+    if gotw != expw:
+        return ["checksums added in the order z, a, m, b and written: the file says %s, added were %s" % (gotw, expw)]
+    # a pre-productmd file (no [header]) whose RELATIVE checksum keys contain '/os/': only absolute paths are cut back to the tree
+    leg = LEGACY + "ppc64/os/images/boot.iso = sha256:%s\nimages/boot.iso = sha256:%s\n" % ("7" * 64, "8" * 64)
+    tl = TreeInfo()
+    try:
+        tl.loads(leg)
+    except Exception as exc:
+        return ["pre-productmd treeinfo with a relative key containing /os/: %s: %s" % (type(exc).__name__, exc)]
+    gotl = {k: tuple(v) for k, v in tl.checksums.checksums.items()}
+    expl = {"images/pxeboot/vmlinuz": ("sha256", "9" * 64), "ppc64/os/images/boot.iso": ("sha256", "7" * 64), "images/boot.iso": ("sha256", "8" * 64)}
+    if gotl != expl:
+        return ["pre-productmd treeinfo with the relative key ppc64/os/images/boot.iso next to images/boot.iso: loaded %s, the file says %s" % (gotl, expl)]
     # removing a child variant is no business of the checksum table (siblings whose repository paths share a textual prefix)
     from productmd.treeinfo import Variant
     tv = TreeInfo()
